@@ -109,6 +109,14 @@ def answer : List String → String
   | ["write", es] => match parseList? parseEntry? es with
       | some xs => answerWrite xs
       | none => "bad-op"
+  | ["domain", es] => match parseList? parseEntry? es with
+      -- the hypotheses of `write_read_decided` evaluated on the value list: wf <np> <dtype> <NoSentinel> | dict | out
+      | some xs =>
+        if xs.any isDict && xs.all (fun e => isDict e || isNone e) then "dict"
+        else match domainOf xs with
+          | none => "out"
+          | some (np, d) => "wf " ++ showBool np ++ " " ++ dtName d ++ " " ++ showBool (noSentinelB d xs)
+      | none => "bad-op"
   | ["norm", es] => match parseList? parseEntry? es with
       | some xs => showList showROut (xs.map (normalise (jaggedTest xs)))
       | none => "bad-op"
